@@ -59,6 +59,10 @@ def mk_cond(c, a, b):
     a, b = assume(a, c, True), assume(b, c, False)
     if a == b:
         return a
+    if c[0] == "cmp" and a == ("const", True) and b == ("const", False):
+        return c            # ``True if x is None else False`` is ``x is None`` (a comparison is its own truth value)
+    if c[0] == "cmp" and a == ("const", False) and b == ("const", True):
+        return ("not", c)
     return ("cond", c, a, b)
 
 
@@ -810,12 +814,40 @@ class Interp:
             return self.alloc(HDict([(self._value_term(k), self._value_term(x)) for k, x in v.items()], ("<module constant>", None, 0)))
         return const(v)
 
+    @staticmethod
+    def _global_rebound(mod, name) -> bool:
+        """The module assigns the global more than once at top level, or some function declares it ``global``."""
+        n = 0
+        for st_ in mod.tree.body:
+            if isinstance(st_, ast.Assign) and any(isinstance(t, ast.Name) and t.id == name for t in st_.targets):
+                n += 1
+            elif isinstance(st_, (ast.AnnAssign, ast.AugAssign)) and isinstance(st_.target, ast.Name) and st_.target.id == name:
+                n += 1
+        if n > 1:
+            return True
+        return any(isinstance(x, ast.Global) and name in x.names for x in ast.walk(mod.tree))
+
     def _resolved(self, r, name):
         if r[0] == "global":
             rx = self._regex_of(r[1].globals.get(r[2]), r[1])
             if rx is not None:
                 return rx
             gv = r[1].globals.get(r[2])
+            if isinstance(gv, (ast.Name, ast.Attribute)) and not self._global_rebound(r[1], r[2]):
+                # a module-level alias (``escape_regexp = re.escape``, ``Line = GherkinLine``): the thing it names
+                from .astutil import xdotted
+                if isinstance(gv, ast.Name) and gv.id != r[2]:
+                    r2 = self.facts.resolve_name(r[1], gv.id)
+                    if r2 is not None:
+                        return self._resolved(r2, gv.id)
+                d = xdotted(gv, r[1])
+                if d is not None and isinstance(gv, ast.Attribute):
+                    head = d.split(".")[0]
+                    base = gv
+                    while isinstance(base, ast.Attribute):
+                        base = base.value
+                    if isinstance(base, ast.Name) and base.id in r[1].imports and head not in self.facts.modules and not head.startswith("gherkin"):
+                        return ("extname", d)
             if isinstance(gv, (ast.Call, ast.BinOp, ast.DictComp, ast.ListComp, ast.SetComp, ast.GeneratorExp)) and r[2] != "RULE_TYPE":
                 cache = self.__dict__.setdefault("_gconst_cache", {})
                 key = (r[1].name, r[2])
